@@ -22,6 +22,13 @@ func allCases() []copyCase {
 			cs = append(cs, cc)
 		}
 	}
+	for _, cc := range schemeCases() {
+		if strings.HasPrefix(cc.name, "bgv.") {
+			cc.name += "@gap2"
+			cc.envKind = "bgv-gap2"
+			cs = append(cs, cc)
+		}
+	}
 	cs = append(cs, deepCases()...)
 	cs = append(cs, schemeCases()...)
 	cs = append(cs, mpCases()...)
